@@ -29,11 +29,13 @@ Proof.
   unfold same_frames.
   induction x as [z|n|a IHa f|a IHa b IHb|a IHa b IHb|a IHa b IHb]; intros s s' v H; cbn [eval_expr] in H.
   - injection H as <- _. reflexivity.
-  - dbind H as o. destruct o; [|discriminate]. injection H as <- _. reflexivity.
+  - dbind H as o. destruct o; injection H as <- _; reflexivity.
   - dbind H as [s1 v1]. apply IHa in E.
-    destruct v1; try discriminate.
+    destruct v1; try discriminate;
+      try (destruct (py_own_attr f); [discriminate|]);
+      try (injection H as <- _; exact E).
     + destruct (nth_error (heap s1) h); [|discriminate].
-      destruct (row_attr c f); [|discriminate]. injection H as <- _. exact E.
+      destruct (row_attr c f); injection H as <- _; exact E.
     + destruct (String.eqb f "id"); [|discriminate]. dbind H as [s2 i].
       injection H as <- _. apply touch_slot_frames in E0. unfold same_frames in E0. congruence.
   - dbind H as [s1 v1]. dbind H as [s2 v2].
@@ -65,7 +67,7 @@ Proof.
       try (dbind H as [s1 t]; dbind H as w0; injection H as <- _;
            apply render_pieces_frames in E; exact E).
     dbind H as [s1 w]. apply eval_expr_frames in E.
-    destruct w; try (injection H as <- _; exact E).
+    destruct w; try discriminate; try (injection H as <- _; exact E).
     dbind H as w0. injection H as <- _. exact E.
   - dbind H as [s1 t]. dbind H as w0. injection H as <- _.
     apply render_pieces_frames in E. exact E.
@@ -103,7 +105,7 @@ Proof.
   - destruct (hidden n); [eauto|].
     dbind H as [s1 o]. dbind H as [s2 rest]. injection H as <- _.
     apply IH in E0. rewrite E0.
-    destruct v; try (injection E as <- _; reflexivity).
+    destruct v; try discriminate; try (injection E as <- _; reflexivity).
     + destruct (nth_error (heap s) h); [|discriminate]. injection E as <- _. reflexivity.
     + destruct (lookup name (slots s)); [|discriminate]. dbind E as [s3 i].
       injection E as <- _. apply touch_slot_frames in E1. exact E1.
@@ -143,8 +145,8 @@ Proof.
   - reflexivity.
   - rewrite lookup_name_app. destruct (lookup_name e s n) as [[v|]|]; reflexivity.
   - rewrite IHa. destruct (eval_expr e a s) as [[s1 v]|]; [|reflexivity]. cbn [liftA bind].
-    destruct v; try reflexivity.
-    + change (heap (app_out o s1)) with (heap s1).
+    destruct v; try reflexivity; try (destruct (py_own_attr f); reflexivity).
+    + destruct (py_own_attr f); [reflexivity|]. change (heap (app_out o s1)) with (heap s1).
       destruct (nth_error (heap s1) h); [|reflexivity]. destruct (row_attr c f); reflexivity.
     + destruct (String.eqb f "id"); [|reflexivity]. rewrite touch_slot_app.
       destruct (touch_slot s1 name) as [[s2 i]|]; reflexivity.
@@ -223,6 +225,7 @@ Proof.
   - change (slots (app_out o s)) with (slots s). destruct (lookup name (slots s)); [|reflexivity].
     rewrite touch_slot_app. destruct (touch_slot s name) as [[s1 i]|]; [|reflexivity]. cbn [liftA bind].
     rewrite IH. destruct (flatten_fields s1 r) as [[s2 rest]|]; reflexivity.
+  - reflexivity.
 Qed.
 
 Lemma write_row_app s h o : write_row (app_out o s) h = liftS o (write_row s h).
